@@ -148,7 +148,9 @@ def run(ctx):
         if "outcome" in r and r["outcome"].get("message"):
             detail["after_message"] = r["outcome"]["message"]
         ut = refgen.unbound_type(d)
-        sig = f"{tool}: the emitted function signature mentions the non-existent type `{ut}`" if ut else f"{cls}: {d}"
+        sig = f"{tool}: the emitted function signature mentions the non-existent type `{ut}`" if ut else f"{cls}: {refgen.blank_ticks(d)}"
+        if "__ERROR(" in new and "__ERROR(" not in P["src"]:
+            sig = f"{tool}: the emitted function signature contains the internal error-type text `__ERROR(…)`"
         ctx.violation(sig, detail, cli_cmd=cli(tool, s))
         ctx.outcome(f"{tool}:{d.split(' (')[0]}")
     # CLI confirmation (up to 12 violations)
